@@ -3235,7 +3235,13 @@ class LazyStackedTensorDict(TensorDictBase):
         _lock_parents_weakrefs = [
             item for item in _lock_parents_weakrefs if item is not weakref.ref(self)
         ]
-        return _lock_parents_weakrefs
+        # the parents registered on the stack itself (a stack without members has no other record of them)
+        return self.__dict__.get("__lock_parents_weakrefs", []) + _lock_parents_weakrefs
+
+    @_lock_parents_weakrefs.setter
+    def _lock_parents_weakrefs(self, value: list):
+        # only the stack's own record is stored, the rest is derived from the members
+        self.__dict__["__lock_parents_weakrefs"] = value
 
     def _propagate_lock(self, lock_parents_weakrefs=None, *, is_compiling):
         """Registers the parent tensordict that handles the lock."""
@@ -3244,6 +3250,13 @@ class LazyStackedTensorDict(TensorDictBase):
             is_root = lock_parents_weakrefs is None
             if is_root:
                 lock_parents_weakrefs = []
+            else:
+                own = self.__dict__.get("__lock_parents_weakrefs", [])
+                self.__dict__["__lock_parents_weakrefs"] = own + [
+                    ref
+                    for ref in lock_parents_weakrefs
+                    if not any(refref is ref for refref in own)
+                ]
 
             lock_parents_weakrefs = copy(lock_parents_weakrefs) + [weakref.ref(self)]
         for dest in self.tensordicts:
